@@ -29,6 +29,10 @@ def derivation_call(prog, t):
         t = t[1]
     if t[0] == "trybranch":
         t = t[1]
+    while t[0] == "call" and t[1] in ("std::result::Result::map_err", "std::result::Result::ok", "std::option::Option::ok_or", "std::option::Option::ok_or_else") and t[2]:
+        t = t[2][0]  # derive(..).map_err(e)? carries the same Ok payload
+        if t[0] == "trybranch":
+            t = t[1]
     if t[0] == "call" and len(t[2]) == 3:
         cb = _body_of_call(prog, t)
         if cb is not None and is_derivation_fn(prog, cb.key):
